@@ -1204,6 +1204,19 @@ class Evaluator:
                 return self._yields_pairs(it[2][0], depth + 1)
         if h in ("setof", "copyof"):
             return self._yields_pairs(it[1], depth + 1)
+        if h == "comp" and it[1] in ("list", "gen", "set") and is_term(it[2]) and it[2][0] == "tuplelit" and len(it[2][1]) == 2 and not any(x[0] == "star" for x in it[2][1]):
+            return True  # a comprehension of explicit pairs
+        if h == "accum" and it[1] in ("concat", "union") and len(it) > 4 and it[3][0] in ("listlit", "setlit") and len(it[3][1]) == 1 \
+                and it[3][1][0][0] == "tuplelit" and len(it[3][1][0][1]) == 2 and (it[2] in (("listlit", ()), EMPTY) or self._yields_pairs(it[2], depth + 1)):
+            return True  # a list / generator that receives one explicit pair per iteration
+        if h == "comp" and it[1] in ("list", "gen", "set") and it[3] and it[2] == it[3][-1][0] and it[2][0] == "var":
+            return self._yields_pairs(it[3][-1][1], depth + 1)  # the elements of the last generator's source, passed on unchanged
+        if h == "bigunion" and is_term(it[1]) and it[1][0] == "comp":
+            return self._yields_pairs(it[1][2], depth + 1)
+        if h == "call" and isinstance(it[1], str) and it[1].endswith("from_iterable") and len(it[2]) == 1 and it[2][0][0] == "comp":
+            return self._yields_pairs(it[2][0][2], depth + 1)
+        if h == "concat" and len(it) == 3:
+            return self._yields_pairs(it[1], depth + 1) and self._yields_pairs(it[2], depth + 1)
         et = self.elem_type(it)
         return isinstance(et, tuple) and len(et) == 2 and et[0] == "tuple" and isinstance(et[1], (tuple, list)) and len(et[1]) == 2 and et[1][0] != "..." and et[1][1] != "..."
 
